@@ -144,6 +144,17 @@ static void exec(const Plan* p) {
             if (ZSTD_isError(r) || r != total) sim_violation("inspector_margin", "in-place decoding with the advertised margin %zu fails: %s", margin, ZSTD_isError(r) ? ZSTD_getErrorName(r) : "size");
             { int f2; for (f2 = 0; f2 < nframes; f2++) if (n && memcmp(buf + (size_t)f2 * n, t.s.in, n)) sim_violation("inspector_margin", "in-place decoding produced wrong bytes in frame %d", f2); }
             sim_buf_free(buf); ZSTD_freeDCtx(d); } }
+        /* the same with a small last frame (its own, smaller block-size limit) after the sequence: the margin must cover the largest block of ANY frame */
+        if (n >= 1) { size_t const tn = n < 64 ? n : 40 + n % 24; uint8_t tiny[256]; size_t const tz = ZSTD_compress(tiny, sizeof tiny, t.s.in, tn, 1);
+          if (!ZSTD_isError(tz) && !t.s.dict) { uint8_t* seq2 = (uint8_t*)malloc(sl + tz); size_t const sl2 = sl + tz; size_t margin, tot; uint8_t* buf; size_t r; ZSTD_DCtx* d = ZSTD_createDCtx();
+            memcpy(seq2, seq, sl); memcpy(seq2 + sl, tiny, tz); margin = ZSTD_decompressionMargin(seq2, sl2);
+            if (ZSTD_isError(margin)) sim_violation("inspector_margin", "decompressionMargin fails on a valid sequence ending in a small frame: %s", ZSTD_getErrorName(margin));
+            tot = (size_t)total + tn + margin; if (tot < sl2) tot = sl2; buf = (uint8_t*)sim_buf_new(tot); memcpy(buf + tot - sl2, seq2, sl2); ZSTD_DCtx_setParameter(d, ZSTD_d_windowLogMax, 31);
+            r = ZSTD_decompressDCtx(d, buf, tot, buf + tot - sl2, sl2);
+            if ((e = sim_buf_check(buf)) != NULL) sim_violation("dst_overrun", "in-place decode: %s", e);
+            if (ZSTD_isError(r) || r != total + tn) sim_violation("inspector_margin", "in-place decoding of a sequence ending in a small frame, with the advertised margin %zu, fails: %s", margin, ZSTD_isError(r) ? ZSTD_getErrorName(r) : "size");
+            if (memcmp(buf + (size_t)total, t.s.in, tn) || (n && memcmp(buf, t.s.in, n))) sim_violation("inspector_margin", "in-place decoding of a sequence ending in a small frame produced wrong bytes");
+            sim_buf_free(buf); ZSTD_freeDCtx(d); free(seq2); sim_probe("c06.margin_small_last_frame"); } }
         free(seq); sim_probe("c06.inspector_sequences");
     }
     sim_probe_n("c06.capacities_tried", t.caps);
